@@ -10,7 +10,17 @@ REPLAY_PY = '/venv/bin/python'
 
 def run_worker(prop, unit, both, env, shard=None):
     cmd = [PY, '-m', 'pyvc.worker', prop, unit] + (['--both'] if both else []) + (['--shard=%d/%d' % shard] if shard else [])
-    p = subprocess.run(cmd, cwd=ROOT, capture_output=True, text=True, env=env)
+    # a worker that runs away (path explosion, solver memory) is an UNDECIDED unit, never a verdict
+    wall = int(os.environ.get('PYVC_WORKER_TIMEOUT', '900')); mem = int(os.environ.get('PYVC_WORKER_MEM_GB', '12')) << 30
+    def limits():
+        import resource
+        resource.setrlimit(resource.RLIMIT_AS, (mem, mem))
+    try:
+        p = subprocess.run(cmd, cwd=ROOT, capture_output=True, text=True, env=env, timeout=wall, preexec_fn=limits)
+    except subprocess.TimeoutExpired:
+        return {'unit': unit, 'status': 'unsupported', 'detail': 'worker exceeded the wall-clock budget of %d s (undecided)' % wall, 'obligations': []}
+    if p.returncode != 0 and 'MemoryError' in (p.stderr or ''):
+        return {'unit': unit, 'status': 'unsupported', 'detail': 'worker exceeded the memory budget (undecided)', 'obligations': []}
     for line in reversed(p.stdout.strip().split('\n')):
         line = line.strip()
         if line.startswith('{'):
